@@ -31,3 +31,10 @@ def check(ctx: Ctx) -> None:
     ctl = ctx.all_nodes(lambda n: ctx.is_ext_call(n, "asyncio.tasks.gather", "asyncio.gather"), ctx.pool_functions())
     rep.floor("R04.4", "positive control: resolved gather calls in the pool classes", len(ctx.distinct_sites(ctl)), 2)
     rep.ob("R04.4", "no wait_for/timeout call in the pool classes", not bad, construct="pool classes: wait_for/timeout sites = %d" % len(bad))
+    # the slot of a task whose id was given twice is never released (see C02), so the rest of an accepted request never starts (id discipline shared with C11)
+    from . import naming as _N
+    _N.r_id_discipline(ctx, "R04.11")
+    # "however long it has to wait": the room a waiting request needs comes back only if every ending task finds itself in a registry
+    # (else its ending raises before the release) - the registry-integrity premises shared with C02/C03/C05
+    S.r_snapshot_forget(ctx, "R13.1")
+    S.r_registry_who(ctx, "R03.1")
